@@ -136,4 +136,10 @@ end Examples
 #print axioms C06_fixed_point
 #print axioms C06_idempotent
 
+/-- the guards hold on the current source (see `C05_guards`): `convert(x, T)` of a typed value behind an earlier union
+member whose constructor refuses its serialised form goes on to the next member -/
+theorem C06_guards : GuardsCover = true := C05_guards
+
+#print axioms C06_guards
+
 end PaneModel
